@@ -28,6 +28,8 @@ import warnings
 
 import numpy as np
 import pandas as pd
+from sklearn.base import BaseEstimator as SkBaseEstimator
+from sklearn.base import RegressorMixin
 
 from .common import Recorder, mint
 
@@ -55,7 +57,8 @@ def snap(o):
     if isinstance(o, pd.Series):
         return ("S", snap(o.index), str(o.dtype), str(o.name), snap(o.to_numpy()))
     if isinstance(o, pd.Index):
-        return ("I", type(o).__name__, str(o.dtype), tuple(str(v) for v in o))
+        # labels and dtype; not the Index subclass (statsmodels swaps an equal RangeIndex in for an int64 Index)
+        return ("I", str(o.dtype), tuple(str(v) for v in o))
     if isinstance(o, np.ndarray):
         if o.dtype == object:
             return ("O", o.shape, tuple(snap(v) for v in o.ravel()))
@@ -320,7 +323,8 @@ class Call:
 class Subject:
     """one estimator configuration + data + the apply-type calls exercised on it"""
 
-    def __init__(self, name, make, data, fit, calls, n_jobs=(), other_fit=None, reproducible=True, fresh_refs=True):
+    def __init__(self, name, make, data, fit, calls, n_jobs=(), other_fit=None, reproducible=True, fresh_refs=True,
+                 kf_data=None, kf_raise=None):
         self.name = name
         self.make = make              # make(**overrides) -> new unfitted estimator with the same parameters every time
         self.data = data              # data() -> dict name -> new equal caller objects every time
@@ -330,6 +334,10 @@ class Subject:
         self.other_fit = other_fit    # other_fit(est, d): fit on different data first (then set_params + refit)
         self.reproducible = reproducible    # False: random_state=None -> only the purity clauses apply
         self.fresh_refs = fresh_refs  # False (expensive fit): all references from one estimator, in call order
+        # kf_data(before_dict, after_dict, changed_names) -> "KF:..." key when the modification of the caller's data
+        # is exactly a triaged defect of the unchanged tree, else None (-> reported under the normal key)
+        self.kf_data = kf_data
+        self.kf_raise = kf_raise      # kf_raise(overrides, exception) -> "KF:..." key or None, same idea for a raising fit
 
 
 def _quiet(fn):
@@ -349,7 +357,7 @@ class Runner:
         self.token = seed * 1000 + 1
 
     # -- one fitted estimator on a fresh copy of the data; checks that fit left the data alone
-    def fitted(self, S, how="fit", count_fit_check=True, **over):
+    def fitted(self, S, how="fit", raise_key=K_RAISE, **over):
         d = S.data()
         before = S.data()
         snaps = {k: snap(v) for k, v in d.items()}
@@ -362,15 +370,20 @@ class Runner:
                 est.set_params(**est.get_params(deep=False))
             est = _quiet(lambda: S.fit(est, d))
         except Exception as e:
-            self.R.check(K_RAISE, False, f"{S.name}: {how}({over or ''}) raised {_err(e)}")
+            key = raise_key
+            if S.kf_raise is not None:
+                key = S.kf_raise(over, e) or raise_key
+            self.R.check(key, False, f"{S.name}: {how}({over or ''}) raised {_err(e)}")
             return None, None, None
-        if count_fit_check:
-            ok = all(snap(d[k]) == s for k, s in snaps.items())
-            self.R.check(K_FITDATA, ok, f"{S.name}: after {how} the caller's data changed: "
-                         + (changed_note(before, d, snaps) if not ok else ""))
-            if not ok:
-                d = S.data()
-                snaps = {k: snap(v) for k, v in d.items()}
+        ok = all(snap(d[k]) == s for k, s in snaps.items())
+        key = K_FITDATA
+        if not ok and S.kf_data is not None:
+            key = S.kf_data(before, d, [k for k, s in snaps.items() if snap(d[k]) != s]) or K_FITDATA
+        self.R.check(key, ok, f"{S.name}: after {how}({over or ''}) the caller's data changed: "
+                     + (changed_note(before, d, snaps) if not ok else ""))
+        if not ok:
+            d = S.data()
+            snaps = {k: snap(v) for k, v in d.items()}
         return est, d, snaps
 
     def apply(self, S, est, d, snaps, call, history=""):
@@ -384,7 +397,10 @@ class Runner:
         if not ok:
             before = S.data()
             note = changed_note(before, d, snaps)
-            self.R.check(K_APPDATA, False, f"{S.name}: {call.label}{history} modified the caller's data: {note}")
+            key = K_APPDATA
+            if S.kf_data is not None:
+                key = S.kf_data(before, d, [k for k, s in snaps.items() if snap(d[k]) != s]) or K_APPDATA
+            self.R.check(key, False, f"{S.name}: {call.label}{history} modified the caller's data: {note}")
             # restore so that the following calls see the original input again
             fresh = S.data()
             for k in list(d):
@@ -402,7 +418,7 @@ class Runner:
         refs = [None] * k
         if S.fresh_refs and S.reproducible:
             for i, c in enumerate(calls):
-                est, d, snaps = self.fitted(S, count_fit_check=(i == 0))
+                est, d, snaps = self.fitted(S)
                 if est is None:
                     return
                 ok, r = self.apply(S, est, d, snaps, c, " (first call on a fresh estimator)")
@@ -421,46 +437,34 @@ class Runner:
                     return
                 refs[i] = r
             if not S.reproducible:
-                # purity only: continue on the same estimator
-                self.sequence(S, est, d, snaps, refs, euler_sequence(k, k - 1), first_key=K_INTER, pre=[c.label for c in calls])
-                self.pickled(S, est, d, snaps, refs, "after the call sequence")
+                # random_state=None: only the purity clauses apply; continue on the same estimator
+                self.sequence(S, est, d, snaps, refs, euler_sequence(k, k - 1), first_key=K_INTER,
+                              pre=[c.label for c in calls])
+                self.pickled_now(S, est, d, snaps, "after the call sequence")
                 return
         # ---------------------------------------------------------------- second, equal estimator: call sequence
-        est, d, snaps = self.fitted(S, count_fit_check=False)
+        est, d, snaps = self.fitted(S)
         if est is None:
             return
-        try:
-            blob0 = pickle.dumps(est)
-        except Exception as e:
-            blob0 = None
-            R.check(K_PICKLE, False, f"{S.name}: pickling the fitted estimator raised {_err(e)}")
+        self.pickled_vs_refs(S, est, d, snaps, refs)
         seq = euler_sequence(k, (self.seed + len(S.name)) % k if S.fresh_refs else k - 1)
         rng = random.Random(self.seed * 31 + len(S.name))
         seq = seq + [rng.randrange(k) for _ in range(k if tier == "quick" else 4 * k)]
         self.sequence(S, est, d, snaps, refs, seq)
-        # ---------------------------------------------------------------- pickled copies
-        if blob0 is not None:
-            try:
-                p0 = pickle.loads(blob0)
-            except Exception as e:
-                p0 = None
-                R.check(K_PICKLE, False, f"{S.name}: restoring the pickled fitted estimator raised {_err(e)}")
-            if p0 is not None:
-                self.pickled_est(S, p0, d, snaps, refs, "pickled right after fit")
-        self.pickled(S, est, d, snaps, refs, "pickled after the call sequence")
+        self.pickled_now(S, est, d, snaps, "after the call sequence")
         # ---------------------------------------------------------------- thorough: every ordered pair on fresh fits
         if tier == "thorough" and S.fresh_refs and k > 1:
             for i in range(k):
                 for j in range(k):
                     if i == j:
                         continue
-                    e2, d2, s2 = self.fitted(S, count_fit_check=False)
+                    e2, d2, s2 = self.fitted(S)
                     if e2 is None:
                         return
                     self.sequence(S, e2, d2, s2, refs, [i, j, i])
         # ---------------------------------------------------------------- refit after other data
         if S.other_fit is not None:
-            e3, d3, s3 = self.fitted(S, how="refit", count_fit_check=False)
+            e3, d3, s3 = self.fitted(S, how="refit")
             if e3 is not None:
                 for i, c in enumerate(calls):
                     ok, r = self.apply(S, e3, d3, s3, c)
@@ -470,7 +474,7 @@ class Runner:
                             f"estimator returned {brief(refs[i])} [{diff_note(r, refs[i])}]") if not good else "")
         # ---------------------------------------------------------------- n_jobs
         for nj in S.n_jobs:
-            e4, d4, s4 = self.fitted(S, count_fit_check=False, n_jobs=nj)
+            e4, d4, s4 = self.fitted(S, raise_key=K_NJOBS, n_jobs=nj)
             if e4 is None:
                 continue
             for i, c in enumerate(calls):
@@ -504,18 +508,848 @@ class Runner:
                            f"equal estimator) is {brief(refs[idx])} [{diff_note(r, refs[idx])}]"))
             hist.append(c.label)
 
-    def pickled(self, S, est, d, snaps, refs, when):
+    def pickled_vs_refs(self, S, est, d, snaps, refs):
+        """copy taken right after fit: every call, each on its own restored copy, must return the reference"""
         try:
-            p = pickle.loads(pickle.dumps(est))
+            blob = pickle.dumps(est)
         except Exception as e:
-            self.R.check(K_PICKLE, False, f"{S.name}: pickle round trip ({when}) raised {_err(e)}")
+            self.R.check(K_PICKLE, False, f"{S.name}: pickling the fitted estimator raised {_err(e)}")
             return
-        self.pickled_est(S, p, d, snaps, refs, when)
-
-    def pickled_est(self, S, p, d, snaps, refs, when):
         for i, c in enumerate(S.calls):
+            try:
+                p = pickle.loads(blob)
+            except Exception as e:
+                self.R.check(K_PICKLE, False, f"{S.name}: restoring the pickled fitted estimator raised {_err(e)}")
+                return
             ok, r = self.apply(S, p, d, snaps, c)
             good = ok and same(r, refs[i])
-            self.R.check(K_PICKLE, good, f"{S.name}: copy {when}: {c.label} "
-                         + (f"raised {r}" if not ok else f"returned {brief(r)}; the reference is {brief(refs[i])} "
-                            f"[{diff_note(r, refs[i])}]") if not good else "")
+            self.R.check(K_PICKLE, good, f"{S.name}: copy pickled right after fit: {c.label} "
+                         + (f"raised {r}" if not ok else f"returned {brief(r)}; a fresh equal estimator returned "
+                            f"{brief(refs[i])} [{diff_note(r, refs[i])}]") if not good else "")
+
+    def pickled_now(self, S, est, d, snaps, when):
+        """copy of a used estimator: the copy and the original, asked the same thing now, agree"""
+        for i, c in enumerate(S.calls):
+            try:
+                p = pickle.loads(pickle.dumps(est))
+            except Exception as e:
+                self.R.check(K_PICKLE, False, f"{S.name}: pickle round trip ({when}) raised {_err(e)}")
+                return
+            ok, r = self.apply(S, p, d, snaps, c)
+            ok2, r2 = self.apply(S, est, d, snaps, c)
+            good = ok and ok2 and same(r, r2)
+            self.R.check(K_PICKLE, good, f"{S.name}: copy pickled {when}: {c.label} "
+                         + (f"raised {r}" if not ok else f"returned {brief(r)}; the estimator it was copied from "
+                            f"{'raised ' + str(r2) if not ok2 else 'returned ' + brief(r2)}") if not good else "")
+
+
+# ================================================================================================ forecasters
+class ScalarRegressor(RegressorMixin, SkBaseEstimator):
+    """deterministic stub regressor (real sklearn regressors do not run with the reducers under the shim):
+    least squares on the flattened window, returns python scalars for one row"""
+
+    def __init__(self, ridge=0.1):
+        self.ridge = ridge
+
+    def fit(self, X, y):
+        X = np.asarray(X, dtype=float)
+        X = X.reshape(X.shape[0], -1)
+        y = np.asarray(y, dtype=float)
+        A = np.column_stack([np.ones(len(X)), X])
+        self.coef_ = np.linalg.solve(A.T @ A + self.ridge * np.eye(A.shape[1]), A.T @ y)
+        return self
+
+    def predict(self, X):
+        X = np.asarray(X, dtype=float)
+        X = X.reshape(X.shape[0], -1)
+        out = np.column_stack([np.ones(len(X)), X]) @ self.coef_
+        if out.ndim == 1 and out.shape[0] == 1:
+            return float(out[0])
+        return out
+
+
+def fc_data(n, kind, start, seed, n_new=3, positive=True):
+    def data():
+        y_all = make_series(n + n_new, seed, kind, start, positive=positive)
+        d = {
+            "y": y_all.iloc[:n].copy(),
+            "y_new": y_all.iloc[n:].copy(),
+            "y_other": make_series(n + 2, seed + 5, kind, start + 1, positive=positive),
+            "fh_out": np.array([1, 2, 3]),
+            "fh_gap": np.array([2, 5]),
+            "fh_ins_full": np.arange(-(n - 1), 1),
+            "fh_ins_short": np.array([-2, -1, 0]),
+            "fh_mixed": np.arange(-3, 3),
+            "fh_list": [1, 4],
+        }
+        return d
+    return data
+
+
+def fc_calls(which, pred_int=False):
+    table = {
+        "out": Call("predict(fh=[1,2,3])", lambda f, d: f.predict(fh=d["fh_out"])),
+        "gap": Call("predict(fh=[2,5])", lambda f, d: f.predict(fh=d["fh_gap"])),
+        "list": Call("predict(fh=list [1,4])", lambda f, d: f.predict(fh=d["fh_list"])),
+        "ins_full": Call("predict(fh=all in-sample steps -(n-1)..0)", lambda f, d: f.predict(fh=d["fh_ins_full"])),
+        "ins_short": Call("predict(fh=[-2,-1,0])", lambda f, d: f.predict(fh=d["fh_ins_short"])),
+        "mixed": Call("predict(fh=[-3..2])", lambda f, d: f.predict(fh=d["fh_mixed"])),
+        "int": Call("predict(fh=[1,2,3], return_pred_int=True)",
+                    lambda f, d: f.predict(fh=d["fh_out"], return_pred_int=True)),
+        "int80": Call("predict(fh=[2,5], return_pred_int=True, alpha=0.2)",
+                      lambda f, d: f.predict(fh=d["fh_gap"], return_pred_int=True, alpha=0.2)),
+        "stored": Call("predict() with the horizon given to fit", lambda f, d: f.predict()),
+        "stored_same": Call("predict(fh=the horizon given to fit)", lambda f, d: f.predict(fh=d["fh_out"])),
+    }
+    return [table[w] for w in which]
+
+
+FIT_PLAIN = ("fit(y)", lambda f, d: f.fit(d["y"]))
+FIT_FH = ("fit(y, fh=[1,2,3])", lambda f, d: f.fit(d["y"], fh=d["fh_out"]))
+FIT_UPD0 = ("fit(y); update(y_new, update_params=False)",
+            lambda f, d: f.fit(d["y"]).update(d["y_new"], update_params=False))
+# (update_params=True refits with the stored horizon, so one is given to fit)
+FIT_UPD1 = ("fit(y, fh=[1,2,3]); update(y_new, update_params=True)",
+            lambda f, d: f.fit(d["y"], fh=d["fh_out"]).update(d["y_new"], update_params=True))
+FIT_FH_UPD0 = ("fit(y, fh=[1,2,3]); update(y_new, update_params=False)",
+               lambda f, d: f.fit(d["y"], fh=d["fh_out"]).update(d["y_new"], update_params=False))
+
+
+def fc_subject(label, make, n, kind, start, seed, fit, calls, n_jobs=(), positive=True, refit=True):
+    fit_label, fit_fn = fit
+    # the earlier fit is given a horizon: on this snapshot a second fit without any horizon raises (see KF below)
+    other = (lambda f, d: f.fit(d["y_other"], fh=d["fh_out"])) if refit else None
+    return Subject(f"{label} [{fit_label}; n={n}, {kind} index from {start}, data seed {seed}]",
+                   make, fc_data(n, kind, start, seed, positive=positive), fit_fn, calls, n_jobs=n_jobs,
+                   other_fit=other)
+
+
+def forecaster_subjects(tier, seed):
+    from sktime.forecasting.compose import (EnsembleForecaster, MultiplexForecaster, StackingForecaster,
+                                            TransformedTargetForecaster, make_reduction)
+    from sktime.forecasting.exp_smoothing import ExponentialSmoothing
+    from sktime.forecasting.model_selection import ForecastingGridSearchCV, SlidingWindowSplitter
+    from sktime.forecasting.naive import NaiveForecaster
+    from sktime.forecasting.theta import ThetaForecaster
+    from sktime.forecasting.trend import PolynomialTrendForecaster
+    from sktime.transformations.series.boxcox import LogTransformer
+    from sktime.transformations.series.detrend import Deseasonalizer, Detrender
+
+    thorough = tier == "thorough"
+    out = []
+    # training length, index kind, first label (not 0: positions and labels differ)
+    layouts = [(12, "range", 3), (13, "period", 0), (12, "range", 0)]
+    if thorough:
+        layouts += [(15, "int64", 7), (14, "datetime", 2), (9, "range", 5)]
+    # (a period / datetime index only with the window forecasters: the other ones raise TypeError on period arithmetic
+    # under the installed pandas, with or without the shim)
+    plain_lays = [(12, "range", 3), (13, "int64", 0)] + ([(15, "int64", 7), (9, "range", 5)] if thorough else [])
+    lay16 = [(16, "range", 3), (17, "int64", 0)] + ([(21, "int64", 4)] if thorough else [])
+    ALL = ["out", "gap", "ins_full", "ins_short", "mixed", "list"]
+    CORE = ["out", "ins_full", "gap", "mixed"]
+    NJ = (None, 1, 2, 4)
+    cnt = [0]
+
+    def lays_of(pool, k=1):
+        """thorough: every layout; quick: k of them, rotating with the seed"""
+        if thorough:
+            return pool
+        cnt[0] += 1
+        return [pool[(cnt[0] + seed + j) % len(pool)] for j in range(k)]
+
+    # ---- NaiveForecaster: every strategy x window x seasonal periodicity (window not a multiple of sp included)
+    naive_cfgs = []
+    for strategy in ("last", "mean", "drift"):
+        for wl in (None, 4, 5):
+            for sp in (1, 4, 3):
+                if strategy == "drift" and sp != 1:
+                    continue
+                if strategy == "last" and wl is not None and sp == 1:
+                    continue      # window_length is not used by "last" without seasonality
+                if not thorough and ((wl == 5 and strategy != "drift" and sp != 3) or (sp == 3 and wl != 5)
+                                     or (strategy == "drift" and wl == 4)):
+                    continue
+                naive_cfgs.append(dict(strategy=strategy, window_length=wl, sp=sp))
+    for ci, cfg in enumerate(naive_cfgs):
+        for (n, kind, start) in lays_of(layouts):
+            fits = [FIT_PLAIN, FIT_UPD0, FIT_UPD1] if (thorough or (ci + seed) % 3 == 0) else [FIT_PLAIN]
+            for fit in fits:
+                out.append(fc_subject(f"NaiveForecaster({cfg})", (lambda cfg=cfg, **o: NaiveForecaster(**cfg)),
+                                      n, kind, start, seed + ci, fit,
+                                      fc_calls(ALL if (thorough or fit is FIT_PLAIN and ci % 4 == 0) else CORE)))
+
+    def add(label, make, calls, fits=(FIT_PLAIN,), pool=None, k=1, **kw):
+        for (n, kind, start) in lays_of(pool or plain_lays, k):
+            for fit in fits:
+                out.append(fc_subject(label, make, n, kind, start, seed, fit, fc_calls(calls), **kw))
+
+    some_fits = (FIT_PLAIN, FIT_UPD0, FIT_UPD1)
+    for deg in (1, 2):
+        for icpt in (True, False):
+            add(f"PolynomialTrendForecaster(degree={deg}, with_intercept={icpt})",
+                lambda deg=deg, icpt=icpt, **o: PolynomialTrendForecaster(degree=deg, with_intercept=icpt),
+                ALL if deg == 1 else CORE, some_fits if (deg == 1 and icpt) else (FIT_PLAIN,))
+    add("ExponentialSmoothing(trend='add')", lambda **o: ExponentialSmoothing(trend="add"),
+        ["out", "gap", "ins_full", "mixed"], some_fits, lay16)
+    add("ExponentialSmoothing(trend='add', seasonal='add', sp=4)",
+        lambda **o: ExponentialSmoothing(trend="add", seasonal="add", sp=4), ["out", "gap", "ins_short", "mixed"],
+        (FIT_PLAIN,), lay16)
+    add("ThetaForecaster(sp=1)", lambda **o: ThetaForecaster(sp=1), ["out", "gap", "int", "int80", "list"],
+        some_fits, lay16)
+    add("ThetaForecaster(sp=4)", lambda **o: ThetaForecaster(sp=4), ["out", "gap", "int"], (FIT_PLAIN, FIT_UPD0), lay16)
+    try:
+        from sktime.forecasting.ets import AutoETS
+    except Exception:
+        AutoETS = None
+    if AutoETS is not None:
+        add("AutoETS(trend='add')", lambda **o: AutoETS(trend="add"),
+            ["out", "gap", "ins_short", "mixed"] if thorough else ["out", "gap", "mixed"],
+            (FIT_PLAIN, FIT_UPD0) if thorough else (FIT_PLAIN,), lay16)
+        add("AutoETS(auto=True, sp=1)", lambda n_jobs=None, **o: AutoETS(auto=True, sp=1, n_jobs=n_jobs),
+            ["out", "gap"], (FIT_PLAIN,), lay16, n_jobs=NJ if thorough else (2,), refit=thorough)
+
+    # ---- composites
+    def ens(n_jobs=None, **o):
+        return EnsembleForecaster([("last", NaiveForecaster()), ("mean", NaiveForecaster("mean", window_length=4)),
+                                   ("trend", PolynomialTrendForecaster(degree=1))], n_jobs=n_jobs)
+    add("EnsembleForecaster([last, mean(4), trend])", ens, ["out", "gap", "list"], some_fits, n_jobs=NJ)
+
+    def pipe(**o):
+        return TransformedTargetForecaster([("log", LogTransformer()), ("deseason", Deseasonalizer(sp=4)),
+                                            ("detrend", Detrender(PolynomialTrendForecaster(degree=1))),
+                                            ("naive", NaiveForecaster("mean", window_length=4))])
+    pipe_calls = fc_calls(["out", "gap", "list"]) + [
+        Call("transform(y)", lambda f, d: f.transform(d["y"])),
+        Call("inverse_transform(y_new)", lambda f, d: f.inverse_transform(d["y_new"])),
+    ]
+    for (n, kind, start) in lays_of(plain_lays):
+        for fit in some_fits:
+            out.append(fc_subject("TransformedTargetForecaster([log, deseason(4), detrend, mean(4)])", pipe, n, kind,
+                                  start, seed, fit, pipe_calls))
+
+    def mux(**o):
+        return MultiplexForecaster([("last", NaiveForecaster()), ("drift", NaiveForecaster("drift"))],
+                                   selected_forecaster="drift")
+    add("MultiplexForecaster([last, drift], selected='drift')", mux, ["out", "gap", "list"], some_fits)
+
+    def stack(n_jobs=None, **o):
+        return StackingForecaster([("last", NaiveForecaster()), ("trend", PolynomialTrendForecaster(degree=1))],
+                                  final_regressor=ScalarRegressor(), n_jobs=n_jobs)
+    stored = fc_calls(["stored", "stored_same"])
+    for (n, kind, start) in lays_of(plain_lays):
+        for fit in (FIT_FH, FIT_FH_UPD0):
+            out.append(fc_subject("StackingForecaster([last, trend], stub regressor)", stack, n + 8, kind, start, seed,
+                                  fit, stored, n_jobs=NJ))
+
+    # ---- reduction (stub regressor returning python scalars)
+    for strategy in ("recursive", "direct", "multioutput", "dirrec"):
+        for scitype in ("tabular-regressor", "time-series-regressor"):
+            if not thorough and scitype == "time-series-regressor" and strategy in ("multioutput", "dirrec"):
+                continue
+
+            def red(strategy=strategy, scitype=scitype, **o):
+                return make_reduction(ScalarRegressor(), scitype=scitype, strategy=strategy, window_length=3)
+            for (n, kind, start) in lays_of(layouts[:3] if strategy == "recursive" else plain_lays):
+                if strategy == "recursive":
+                    for fit in (FIT_PLAIN, FIT_UPD0):
+                        out.append(fc_subject(f"make_reduction(stub, {scitype}, {strategy}, window_length=3)", red,
+                                              n + 4, kind, start, seed, fit,
+                                              fc_calls(["out", "gap", "list"] + (["ins_short", "mixed"] if thorough else []))))
+                else:
+                    for fit in (FIT_FH, FIT_FH_UPD0):
+                        out.append(fc_subject(f"make_reduction(stub, {scitype}, {strategy}, window_length=3)", red,
+                                              n + 4, kind, start, seed, fit, stored))
+
+    # ---- tuning
+    def grid(n_jobs=None, **o):
+        return ForecastingGridSearchCV(NaiveForecaster("mean"), SlidingWindowSplitter(fh=[1, 2], window_length=6),
+                                       {"window_length": [2, 3, 5], "sp": [1, 2]}, n_jobs=n_jobs)
+    for (n, kind, start) in lays_of(lay16[:2] + [(17, "period", 0)]):
+        out.append(fc_subject("ForecastingGridSearchCV(Naive mean, window_length x sp)", grid, n, kind, start,
+                              seed, FIT_PLAIN, fc_calls(["out", "gap", "list"]), n_jobs=NJ if thorough else (2,),
+                              refit=thorough))
+    return out
+
+
+def forecaster_protocol_checks(R, tier, seed):
+    """two call sequences outside the generic protocol (both end in a triaged defect of the unchanged tree)"""
+    from sktime.forecasting.compose import EnsembleForecaster
+    from sktime.forecasting.exp_smoothing import ExponentialSmoothing
+    from sktime.forecasting.naive import NaiveForecaster
+    from sktime.forecasting.theta import ThetaForecaster
+    from sktime.forecasting.trend import PolynomialTrendForecaster
+    makers = [
+        ("NaiveForecaster('drift')", lambda: NaiveForecaster("drift")),
+        ("NaiveForecaster('mean', window_length=4)", lambda: NaiveForecaster("mean", window_length=4)),
+        ("PolynomialTrendForecaster()", lambda: PolynomialTrendForecaster()),
+        ("ExponentialSmoothing(trend='add')", lambda: ExponentialSmoothing(trend="add")),
+        ("ThetaForecaster()", lambda: ThetaForecaster()),
+        ("EnsembleForecaster([last, trend])",
+         lambda: EnsembleForecaster([("a", NaiveForecaster()), ("b", PolynomialTrendForecaster())])),
+    ]
+    lays = [(14, "range", 3), (16, "int64", 0)] + ([(18, "range", 9)] if tier == "thorough" else [])
+    for name, mk in makers:
+        for (n, kind, start) in lays:
+            data = fc_data(n, kind, start, seed + 2)
+            desc = f"{name} [n={n}, {kind} index from {start}, data seed {seed + 2}]"
+            # (a) predict() with the horizon of fit, before and after a predict with another horizon
+            try:
+                d = data()
+                ref = _quiet(lambda: mk().fit(d["y"], fh=d["fh_out"]).predict())
+                d = data()
+                f = _quiet(lambda: mk().fit(d["y"], fh=d["fh_out"]))
+                a = _quiet(lambda: f.predict())
+                b = _quiet(lambda: f.predict(fh=d["fh_gap"]))
+                c = _quiet(lambda: f.predict())
+            except Exception as e:
+                R.check(K_RAISE, False, f"{desc}: fit(y, fh=[1,2,3]); predict(); predict(fh=[2,5]); predict() raised {_err(e)}")
+                continue
+            R.check(K_EQUAL, same(a, ref), f"{desc}: fit(y, fh=[1,2,3]).predict() returned {brief(a)} and, on a second "
+                    f"equal estimator, {brief(ref)}")
+            ok = same(c, a)
+            key = K_INTER
+            if not ok and same(c, b):
+                key = "KF:predict-without-fh-returns-horizon-of-previous-predict"
+            R.check(key, ok, f"{desc}: fit(y, fh=[1,2,3]); predict() returned {brief(a)}; then predict(fh=[2,5]); then "
+                    f"predict() returned {brief(c)} [{diff_note(c, a)}]")
+            # (b) fitted without a horizon on other data, set_params with its own parameters, fitted again
+            d = data()
+            ref = _quiet(lambda: mk().fit(d["y"]).predict(fh=d["fh_out"]))
+            f = mk()
+            try:
+                _quiet(lambda: f.fit(d["y_other"]))
+                f.set_params(**f.get_params(deep=False))
+                _quiet(lambda: f.fit(d["y"]))
+                r = _quiet(lambda: f.predict(fh=d["fh_out"]))
+            except Exception as e:
+                kf = isinstance(e, ValueError) and "The forecasting horizon `fh` must be passed" in str(e)
+                R.check("KF:second-fit-without-fh-raises" if kf else K_REFIT, False,
+                        f"{desc}: fit(y_other); set_params(own params); fit(y) (no horizon anywhere) raised {_err(e)}")
+                continue
+            R.check(K_REFIT, same(r, ref), f"{desc}: fit(y_other); set_params(own params); fit(y); predict(fh=[1,2,3]) "
+                    f"returned {brief(r)}; a fresh equal estimator returned {brief(ref)}")
+
+
+# ========================================================================================= series transformers
+def st_data(n, kind, start, seed, container, positive=True, nan_at=(), spikes=(), integer=False, n_new=12):
+    """Z: training series, Z_later: the stretch right after it, Z_other: unrelated series of another length,
+    Zt: values handed to inverse_transform"""
+    def build(length, sd, st, **kw):
+        if container == "series":
+            return make_series(length, sd, kind, st, **kw)
+        if container == "frame":
+            return make_frame(length, sd, kind, st, 2, **kw)
+        if container == "frame1":
+            return make_frame(length, sd, kind, st, 1, **kw)
+        raise ValueError(container)
+
+    def data():
+        kw = dict(positive=positive, nan_at=nan_at, spikes=spikes, integer=integer)
+        full = build(n + n_new, seed, start, **kw)
+        other = build(n + 3, seed + 9, start + 2, **kw)
+        zt = build(n, seed + 4, start, positive=positive)
+        zt = zt / 7.0 if positive else zt * 0.5
+        return {"Z": full.iloc[:n].copy(), "Z_later": full.iloc[n:].copy(), "Z_other": other, "Zt": zt}
+    return data
+
+
+def st_calls(inverse, later=True, other=True):
+    calls = [Call("transform(Z) on the training series", lambda t, d: t.transform(d["Z"]))]
+    if other:
+        calls.append(Call("transform(Z_other)", lambda t, d: t.transform(d["Z_other"])))
+    if later:
+        calls.append(Call("transform(Z_later)", lambda t, d: t.transform(d["Z_later"])))
+    if inverse:
+        calls.append(Call("inverse_transform(Zt)", lambda t, d: t.inverse_transform(d["Zt"])))
+        if later:
+            calls.append(Call("inverse_transform(Z_later)", lambda t, d: t.inverse_transform(d["Z_later"])))
+    return calls
+
+
+ST_FIT = ("fit(Z)", lambda t, d: t.fit(d["Z"]))
+ST_FIT_TRANSFORM = ("fit_transform(Z)", lambda t, d: (t.fit_transform(d["Z"]), t)[1])
+ST_FIT_UPDATE = ("fit(Z); update(Z_later)", lambda t, d: t.fit(d["Z"]).update(d["Z_later"]))
+# (Detrender.update with update_params=True refits with a horizon that is not set before the first transform)
+ST_FIT_UPDATE0 = ("fit(Z); update(Z_later, update_params=False)",
+                  lambda t, d: t.fit(d["Z"]).update(d["Z_later"], update_params=False))
+
+
+def st_subject(label, make, n, kind, start, seed, container, calls, fit=ST_FIT, kf_data=None, **kw):
+    return Subject(f"{label} [{fit[0]}; {container}, n={n}, {kind} index from {start}, data seed {seed}]",
+                   make, st_data(n, kind, start, seed, container, **kw), fit[1], calls,
+                   other_fit=lambda t, d: t.fit(d["Z_other"]), kf_data=kf_data)
+
+
+def kf_imputer_random_frame(before, after, changed):
+    """Imputer(method='random') on a DataFrame assigns the imputed columns into the caller's frame: narrow match --
+    same labels and dtypes, every cell that held a value is bit-identical, only cells that were NaN differ"""
+    for k in changed:
+        b, a = before[k], after[k]
+        if not (isinstance(b, pd.DataFrame) and isinstance(a, pd.DataFrame)):
+            return None
+        if snap(b.index) != snap(a.index) or list(b.columns) != list(a.columns) or list(b.dtypes) != list(a.dtypes):
+            return None
+        bv, av = b.to_numpy(dtype=float), a.to_numpy(dtype=float)
+        held = ~np.isnan(bv)
+        if not np.array_equal(bv[held], av[held]) or np.isnan(av[~held]).any():
+            return None
+    return "KF:imputer-random-writes-imputed-values-into-caller-frame"
+
+
+def series_transformer_subjects(tier, seed):
+    from sklearn.preprocessing import MinMaxScaler, StandardScaler
+    from sktime.forecasting.naive import NaiveForecaster
+    from sktime.forecasting.trend import PolynomialTrendForecaster
+    from sktime.transformations.series.acf import AutoCorrelationTransformer, PartialAutoCorrelationTransformer
+    from sktime.transformations.series.adapt import TabularToSeriesAdaptor
+    from sktime.transformations.series.boxcox import BoxCoxTransformer, LogTransformer
+    from sktime.transformations.series.compose import OptionalPassthrough
+    from sktime.transformations.series.cos import CosineTransformer
+    from sktime.transformations.series.detrend import ConditionalDeseasonalizer, Deseasonalizer, Detrender
+    from sktime.transformations.series.impute import Imputer
+    from sktime.transformations.series.outlier_detection import HampelFilter
+    from sktime.transformations.series.summarize import MeanTransformer
+
+    thorough = tier == "thorough"
+    out = []
+    lays = [(14, "range", 3), (13, "period", 0), (15, "int64", 0)]
+    if thorough:
+        lays += [(17, "datetime", 2), (12, "range", 0), (20, "int64", 11)]
+
+    def pick(i, k=1):
+        if thorough:
+            return lays
+        return [lays[(i + seed + j) % len(lays)] for j in range(k)]
+
+    # ---- HampelFilter: spikes (flagged), NaN, float / int, Series / DataFrame
+    spikes = ((2, 250.0), (7, -180.0), (11, 90.0))
+    i = 0
+    for wl in (3, 4, 7, 10):
+        for n_sigma in (3, 1.5):
+            for rb in (False, True):
+                for container in ("series", "frame"):
+                    for integer in (False, True):
+                        for nan_at in ((), (5,)):
+                            if integer and nan_at:
+                                continue
+                            if not thorough:
+                                special = (n_sigma == 1.5) + rb + integer + bool(nan_at)
+                                # quick: the plain filter for three windows; one option at a time for window 7
+                                if wl == 4 or special > 1 or (special == 1 and wl != 7):
+                                    continue
+                            i += 1
+                            for (n, kind, start) in pick(i):
+                                out.append(st_subject(
+                                    f"HampelFilter(window_length={wl}, n_sigma={n_sigma}, return_bool={rb}) on "
+                                    f"{'int64' if integer else 'float'} data with spikes{' and NaN' if nan_at else ''}",
+                                    lambda wl=wl, n_sigma=n_sigma, rb=rb, **o: HampelFilter(wl, n_sigma, return_bool=rb),
+                                    max(n, wl + 4), kind, start, seed + i, container, st_calls(False),
+                                    spikes=spikes, nan_at=nan_at, integer=integer,
+                                    fit=ST_FIT_TRANSFORM if i % 4 == 0 else ST_FIT))
+
+    # ---- Imputer: every method, NaN in the middle and at both ends
+    methods = ["drift", "linear", "nearest", "constant", "mean", "median", "backfill", "bfill", "pad", "ffill",
+               "random", "forecaster"]
+    i = 0
+    for mi, method in enumerate(methods):
+        for ci, container in enumerate(("series", "frame")):
+            for ni, nan_at in enumerate(((4, 5, 9), (0, 6, -1))):
+                if not thorough and method != "random" and (mi + ci + ni + seed) % 2:
+                    continue
+                for rs in ((0, 1, 7) if method == "random" else (None,)):
+                    if not thorough and rs not in (None, seed % 2):
+                        continue
+                    i += 1
+                    kw = dict(method=method)
+                    if method == "constant":
+                        kw["value"] = 1.5
+                    if method == "random":
+                        kw["random_state"] = rs
+
+                    def mk(kw=kw, method=method, **o):
+                        k2 = dict(kw)
+                        if method == "forecaster":
+                            k2["forecaster"] = NaiveForecaster("drift")
+                        return Imputer(**k2)
+                    for (n, kind, start) in pick(i):
+                        na = tuple(p % n for p in nan_at)
+                        if method in ("drift", "forecaster") and kind == "period":
+                            kind = "range"
+                        out.append(st_subject(f"Imputer({kw}{', forecaster=Naive(drift)' if method == 'forecaster' else ''})"
+                                              f" on data with NaN at positions {na}", mk, n, kind, start, seed + i,
+                                              container, st_calls(False, other=thorough or method == "random"),
+                                              nan_at=na, fit=ST_FIT_TRANSFORM if i % 3 == 0 else ST_FIT,
+                                              kf_data=kf_imputer_random_frame
+                                              if method == "random" and container == "frame" else None))
+    # placeholder for missing values other than NaN
+    for container in ("series", "frame"):
+        for (n, kind, start) in pick(1):
+            out.append(st_subject("Imputer(method='mean', missing_values=90.0) on data holding the placeholder",
+                                  lambda **o: Imputer(method="mean", missing_values=90.0), n, kind, start, seed,
+                                  container, st_calls(False), spikes=((3, 90.0), (8, 90.0))))
+
+    # ---- invertible transformers (univariate)
+    def uni(label, make, inverse=True, fits=(ST_FIT,), positive=True, containers=("series",), later=True, k=1,
+            no_period=False, n_min=0):
+        for ci, container in enumerate(containers):
+            for fi, fit in enumerate(fits):
+                for (n, kind, start) in pick(len(out) + fi, k):
+                    if no_period and kind == "period":
+                        kind = "int64"
+                    out.append(st_subject(label, make, max(n, n_min), kind, start, seed + fi, container,
+                                          st_calls(inverse, later=later), fit=fit, positive=positive))
+
+    for method in ("mle", "pearsonr"):
+        uni(f"BoxCoxTransformer(method='{method}')", lambda method=method, **o: BoxCoxTransformer(method=method),
+            fits=(ST_FIT, ST_FIT_TRANSFORM))
+    uni("BoxCoxTransformer(bounds=(0, 1))", lambda **o: BoxCoxTransformer(bounds=(0, 1)))
+    uni("LogTransformer()", lambda **o: LogTransformer(), containers=("series", "frame"))
+    uni("CosineTransformer()", lambda **o: CosineTransformer(), inverse=False, positive=False,
+        containers=("series", "frame"))
+    uni("MeanTransformer()", lambda **o: MeanTransformer(), inverse=False, containers=("series", "frame"))
+    for sp, model in ((4, "additive"), (4, "multiplicative"), (3, "additive"), (5, "multiplicative")):
+        uni(f"Deseasonalizer(sp={sp}, model='{model}')", lambda sp=sp, model=model, **o: Deseasonalizer(sp, model),
+            fits=(ST_FIT, ST_FIT_UPDATE, ST_FIT_TRANSFORM), n_min=2 * sp + 1)
+    uni("ConditionalDeseasonalizer(sp=4)", lambda **o: ConditionalDeseasonalizer(sp=4), fits=(ST_FIT, ST_FIT_UPDATE))
+    uni("ConditionalDeseasonalizer(sp=4, seasonality_test=always)",
+        lambda **o: ConditionalDeseasonalizer(seasonality_test=_always_seasonal, sp=4), fits=(ST_FIT,))
+    uni("Detrender()", lambda **o: Detrender(), fits=(ST_FIT, ST_FIT_UPDATE0, ST_FIT_TRANSFORM), no_period=True)
+    uni("Detrender(PolynomialTrendForecaster(degree=2))",
+        lambda **o: Detrender(PolynomialTrendForecaster(degree=2)), fits=(ST_FIT, ST_FIT_UPDATE0), no_period=True)
+    uni("Detrender(NaiveForecaster('mean', window_length=3))",
+        lambda **o: Detrender(NaiveForecaster("mean", window_length=3)), fits=(ST_FIT, ST_FIT_UPDATE0))
+    uni("Detrender(NaiveForecaster('last', sp=4))",
+        lambda **o: Detrender(NaiveForecaster("last", sp=4)), fits=(ST_FIT,))
+    uni("AutoCorrelationTransformer(n_lags=4)", lambda **o: AutoCorrelationTransformer(n_lags=4), inverse=False)
+    uni("PartialAutoCorrelationTransformer(n_lags=3)", lambda **o: PartialAutoCorrelationTransformer(n_lags=3),
+        inverse=False)
+    uni("TabularToSeriesAdaptor(StandardScaler())", lambda **o: TabularToSeriesAdaptor(StandardScaler()),
+        fits=(ST_FIT, ST_FIT_TRANSFORM))
+    uni("TabularToSeriesAdaptor(MinMaxScaler())", lambda **o: TabularToSeriesAdaptor(MinMaxScaler()))
+    for passthrough in (False, True):
+        uni(f"OptionalPassthrough(BoxCoxTransformer(), passthrough={passthrough})",
+            lambda passthrough=passthrough, **o: OptionalPassthrough(BoxCoxTransformer(), passthrough=passthrough))
+    return out
+
+
+def _always_seasonal(y, sp=None):
+    return True
+
+
+# ========================================================================================== panel transformers
+def panel_data(n_inst, n_cols, m, seed, container, n_test=4, noise=0.3, n_classes=2):
+    def data():
+        X3, y = panel_values(n_inst + n_test, n_cols, m, seed, noise, n_classes)
+        Xo, yo = panel_values(n_inst + 1, n_cols, m, seed + 3, noise, n_classes)
+        return {"X": as_container(X3[:n_inst], container), "y": y[:n_inst].copy(),
+                "X_test": as_container(X3[n_inst:], container, start=n_inst),
+                "X_other": as_container(Xo, container), "y_other": yo}
+    return data
+
+
+PT_FIT = ("fit(X, y)", lambda t, d: t.fit(d["X"], d["y"]))
+PT_FIT_TRANSFORM = ("fit_transform(X, y)", lambda t, d: (t.fit_transform(d["X"], d["y"]), t)[1])
+
+
+def pt_calls(inverse=False):
+    calls = [Call("transform(X) on the training panel", lambda t, d: t.transform(d["X"])),
+             Call("transform(X_test)", lambda t, d: t.transform(d["X_test"]))]
+    if inverse:
+        calls.append(Call("inverse_transform(transform(X_test) computed by another equal estimator)",
+                          lambda t, d: t.inverse_transform(d["Xt"])))
+    return calls
+
+
+def pt_subject(label, make, n_inst, n_cols, m, seed, container, fit=PT_FIT, calls=None, n_jobs=(), reproducible=True,
+               data=None, **kw):
+    return Subject(f"{label} [{fit[0]}; {container}, {n_inst} x {n_cols} x {m}, data seed {seed}]", make,
+                   data or panel_data(n_inst, n_cols, m, seed, container, **kw), fit[1], calls or pt_calls(),
+                   n_jobs=n_jobs, other_fit=lambda t, d: t.fit(d["X_other"], d["y_other"]), reproducible=reproducible)
+
+
+def _mean_of(x):
+    return float(np.mean(x))
+
+
+def panel_transformer_subjects(tier, seed):
+    from sklearn.preprocessing import FunctionTransformer, StandardScaler
+    from sktime.forecasting.exp_smoothing import ExponentialSmoothing
+    from sktime.transformations.panel.compose import (ColumnConcatenator, SeriesToPrimitivesRowTransformer,
+                                                      SeriesToSeriesRowTransformer)
+    from sktime.transformations.panel.dictionary_based import PAA, SAX, SFA
+    from sktime.transformations.panel.dwt import DWTTransformer
+    from sktime.transformations.panel.hog1d import HOG1DTransformer
+    from sktime.transformations.panel.interpolate import TSInterpolator
+    from sktime.transformations.panel.matrix_profile import MatrixProfile
+    from sktime.transformations.panel.padder import PaddingTransformer
+    from sktime.transformations.panel.pca import PCATransformer
+    from sktime.transformations.panel.reduce import Tabularizer
+    from sktime.transformations.panel.segment import (IntervalSegmenter, RandomIntervalSegmenter,
+                                                      SlidingWindowSegmenter)
+    from sktime.transformations.panel.shapelets import ShapeletTransform
+    from sktime.transformations.panel.slope import SlopeTransformer
+    from sktime.transformations.panel.summarize import (DerivativeSlopeTransformer, FittedParamExtractor,
+                                                        PlateauFinder, RandomIntervalFeatureExtractor)
+    from sktime.transformations.panel.truncation import TruncationTransformer
+
+    thorough = tier == "thorough"
+    out = []
+    containers = ("nested", "numpy3d")
+    seeds = (0, 1, 7) if thorough else (seed % 2,)
+    shapes = [(6, 20)] + ([(5, 13), (8, 24)] if thorough else [])
+
+    cnt = [0]
+
+    def add(label, make, n_cols=1, fits=(PT_FIT,), conts=containers, random=False, **kw):
+        cnt[0] += 1
+        for (n_inst, m) in shapes:
+            for ci, container in enumerate(conts):
+                for fi, fit in enumerate(fits):
+                    if not thorough and len(conts) * len(fits) > 1 and (ci + fi + cnt[0] + seed) % 2:
+                        continue          # quick: containers / fit routes alternate between configurations
+                    for rs in (seeds if random else (None,)):
+                        lab = label if rs is None else f"{label[:-1]}{', ' if not label.endswith('()') else ''}random_state={rs})"
+                        mk = make if rs is None else (lambda rs=rs, **o: make(random_state=rs, **o))
+                        out.append(pt_subject(lab, mk, n_inst, n_cols, m, seed + len(out) % 5, container, fit=fit, **kw))
+
+    both = (PT_FIT, PT_FIT_TRANSFORM)
+    add("PAA(num_intervals=4)", lambda **o: PAA(num_intervals=4), fits=both)
+    add("PAA(num_intervals=3) on 2 columns", lambda **o: PAA(num_intervals=3), n_cols=2)
+    add("SAX(word_length=4, alphabet_size=3, window_size=8)", lambda **o: SAX(4, 3, 8), fits=both)
+    # (binning_method="information-gain" does not run: sklearn rejects the float max_depth it passes)
+    for kw in (dict(), dict(norm=True), dict(binning_method="equi-width"),
+               dict(bigrams=True), dict(levels=2), dict(anova=True), dict(remove_repeat_words=True, save_words=True),
+               dict(return_pandas_data_series=True)):
+        add(f"SFA(word_length=4, alphabet_size=4, window_size=8, {kw})",
+            lambda n_jobs=1, kw=kw, **o: SFA(word_length=4, alphabet_size=4, window_size=8, n_jobs=n_jobs, **kw),
+            n_jobs=(1, 2, 4), fits=both if not kw else (PT_FIT,))
+    add("DWTTransformer(num_levels=2)", lambda **o: DWTTransformer(num_levels=2))
+    add("HOG1DTransformer()", lambda **o: HOG1DTransformer())
+    add("TSInterpolator(length=9)", lambda **o: TSInterpolator(9), n_cols=2)
+    add("MatrixProfile(m=5)", lambda **o: MatrixProfile(m=5))
+    add("PaddingTransformer(pad_length=25)", lambda **o: PaddingTransformer(pad_length=25), fits=both)
+    add("PaddingTransformer(fill_value=-1)", lambda **o: PaddingTransformer(fill_value=-1))
+    add("TruncationTransformer(lower=5)", lambda **o: TruncationTransformer(lower=5))
+    add("TruncationTransformer(lower=2, upper=9)", lambda **o: TruncationTransformer(lower=2, upper=9))
+    add("PCATransformer(n_components=2)", lambda **o: PCATransformer(n_components=2), fits=both)
+    add("Tabularizer()", lambda **o: Tabularizer(), n_cols=2)
+    add("IntervalSegmenter(intervals=3)", lambda **o: IntervalSegmenter(intervals=3), fits=both)
+    add("RandomIntervalSegmenter(n_intervals=3)", lambda **o: RandomIntervalSegmenter(n_intervals=3, **o), random=True)
+    add("RandomIntervalSegmenter(n_intervals='sqrt', min_length=3)",
+        lambda **o: RandomIntervalSegmenter(n_intervals="sqrt", min_length=3, **o), random=True, fits=both)
+    add("SlidingWindowSegmenter(window_length=3)", lambda **o: SlidingWindowSegmenter(window_length=3))
+    add("SlopeTransformer(num_intervals=4)", lambda **o: SlopeTransformer(num_intervals=4))
+    add("DerivativeSlopeTransformer()", lambda **o: DerivativeSlopeTransformer())
+    add("PlateauFinder(value=1.0)", lambda **o: PlateauFinder(value=1.0))
+    add("RandomIntervalFeatureExtractor(n_intervals=3, features=[mean, std])",
+        lambda **o: RandomIntervalFeatureExtractor(n_intervals=3, features=[np.mean, np.std], **o), random=True)
+    add("ShapeletTransform(min 3, max 5, 3 per class)",
+        lambda **o: ShapeletTransform(min_shapelet_length=3, max_shapelet_length=5,
+                                      max_shapelets_to_store_per_class=3, **o), random=True)
+    add("FittedParamExtractor(ExponentialSmoothing(), ['initial_level'])",
+        lambda n_jobs=None, **o: FittedParamExtractor(ExponentialSmoothing(), ["initial_level"], n_jobs=n_jobs),
+        n_jobs=(None, 1, 2, 4) if thorough else (None, 2))
+    add("ColumnConcatenator() on 2 columns", lambda **o: ColumnConcatenator(), n_cols=2)
+    add("SeriesToPrimitivesRowTransformer(FunctionTransformer(mean))",
+        lambda **o: SeriesToPrimitivesRowTransformer(FunctionTransformer(_mean_of), check_transformer=False))
+    add("SeriesToSeriesRowTransformer(StandardScaler())",
+        lambda **o: SeriesToSeriesRowTransformer(StandardScaler(), check_transformer=False))
+    # (panel ColumnTransformer and FeatureUnion do not run under the installed sklearn: private API changed)
+    return out
+
+
+# ================================================================================== classifiers and regressors
+def clf_data(n_inst, n_cols, m, seed, container, n_test=6, noise=0.3, test_noise=0.8, regression=False):
+    """X, y: training panel; X_test: noisy copies of training cases (sensitive to which ensemble members were
+    kept); X_new: unseen cases"""
+    def data():
+        X3, y = panel_values(n_inst + n_test, n_cols, m, seed, noise)
+        rng = np.random.RandomState(3000 + seed)
+        Xn = np.round(X3[:n_test] + test_noise * rng.randn(n_test, n_cols, m), 5)
+        Xo, yo = panel_values(n_inst + 2, n_cols, m, seed + 3, noise)
+        if regression:
+            y = np.round(X3.mean(axis=(1, 2)) * 10 + np.arange(len(X3)) * 0.1, 4)
+            yo = np.round(Xo.mean(axis=(1, 2)) * 10, 4)
+        return {"X": as_container(X3[:n_inst], container), "y": y[:n_inst].copy(),
+                "X_test": as_container(Xn, container), "X_new": as_container(X3[n_inst:], container, start=n_inst),
+                "X_other": as_container(Xo, container), "y_other": yo}
+    return data
+
+
+def clf_calls(proba=True):
+    calls = [Call("predict(X_test)", lambda c, d: c.predict(d["X_test"]))]
+    if proba:
+        calls.append(Call("predict_proba(X_test)", lambda c, d: c.predict_proba(d["X_test"])))
+        calls.append(Call("predict_proba(X_new)", lambda c, d: c.predict_proba(d["X_new"])))
+    else:
+        calls.append(Call("predict(X_new)", lambda c, d: c.predict(d["X_new"])))
+    return calls
+
+
+def clf_subject(label, make, n_inst, n_cols, m, seed, container, n_jobs=(), proba=True, fresh_refs=True,
+                reproducible=True, refit=True, kf_raise=None, **kw):
+    return Subject(f"{label} [fit(X, y); {container}, {n_inst} x {n_cols} x {m}, data seed {seed}]", make,
+                   clf_data(n_inst, n_cols, m, seed, container, **kw), lambda c, d: c.fit(d["X"], d["y"]),
+                   clf_calls(proba), n_jobs=n_jobs,
+                   other_fit=(lambda c, d: c.fit(d["X_other"], d["y_other"])) if refit else None,
+                   fresh_refs=fresh_refs, reproducible=reproducible, kf_raise=kf_raise)
+
+
+def kf_boss_n_jobs_none(over, e):
+    """BOSSEnsemble / ContractableBOSS compare `self.n_jobs > 1` without check_n_jobs: n_jobs=None raises TypeError"""
+    if "n_jobs" in over and over["n_jobs"] is None and isinstance(e, TypeError) \
+            and "'>' not supported between instances of 'NoneType' and 'int'" in str(e):
+        return "KF:boss-ensembles-reject-n_jobs-None"
+    return None
+
+
+def classifier_subjects(tier, seed):
+    from sktime.classification.compose import ColumnEnsembleClassifier
+    from sktime.classification.dictionary_based import (BOSSEnsemble, ContractableBOSS, IndividualBOSS, IndividualTDE,
+                                                        MUSE)
+    thorough = tier == "thorough"
+    out = []
+    NJ = (None, 1, 2, 4)
+    containers = ("nested", "numpy3d")
+    cnt = [0]
+
+    def add(label, make, n_inst=10, n_cols=1, m=40, n_data=1, n_jobs=(), n_jobs_quick=None, rstates=None, **kw):
+        """thorough: both containers x n_data data seeds x 2 random states; quick: containers alternate over the data
+        seeds, one random state, a rotating part of the n_jobs values per data seed"""
+        cnt[0] += 1
+        dseeds = range(seed, seed + (2 * n_data if thorough else n_data))
+        for di, ds in enumerate(dseeds):
+            for ci, container in enumerate(containers):
+                if not thorough and (ci + di + cnt[0] + seed) % 2:
+                    continue
+                for rs in (rstates or ((0, 5) if thorough else (seed % 3,))):
+                    nj = n_jobs
+                    if not thorough and n_jobs_quick is not None:
+                        nj = n_jobs_quick[di % len(n_jobs_quick)]
+                    out.append(clf_subject(f"{label[:-1]}, random_state={rs})",
+                                           lambda rs=rs, **o: make(random_state=rs, **o),
+                                           n_inst, n_cols, m, ds, container, n_jobs=nj, **kw))
+
+    # (a fit with n_jobs > 1 costs ~1.5 s under the threading backend, with n_jobs=1 ~0.1 s)
+    add("BOSSEnsemble(max_ensemble_size=5, min_window=16)",
+        lambda n_jobs=1, **o: BOSSEnsemble(max_ensemble_size=5, min_window=16, n_jobs=n_jobs, **o),
+        n_data=3, n_jobs=NJ, n_jobs_quick=((None, 2), (4,), (2,)), kf_raise=kf_boss_n_jobs_none)
+    if thorough:
+      add("BOSSEnsemble(threshold=0.8, max_ensemble_size=3, min_window=20, max_win_len_prop=0.8)",
+          lambda n_jobs=1, **o: BOSSEnsemble(threshold=0.8, max_ensemble_size=3, min_window=20, max_win_len_prop=0.8,
+                                             n_jobs=n_jobs, **o),
+          n_inst=8, n_jobs=NJ, kf_raise=kf_boss_n_jobs_none)
+    add("IndividualBOSS(window_size=16, word_length=8)",
+        lambda n_jobs=1, **o: IndividualBOSS(window_size=16, word_length=8, n_jobs=n_jobs, **o), n_jobs=NJ,
+        n_jobs_quick=((None, 2),))
+    add("IndividualBOSS(window_size=12, word_length=6, norm=True)",
+        lambda n_jobs=1, **o: IndividualBOSS(window_size=12, word_length=6, norm=True, n_jobs=n_jobs, **o), n_jobs=NJ,
+        n_jobs_quick=((4,),))
+    add("ContractableBOSS(n_parameter_samples=8, max_ensemble_size=3, min_window=16)",
+        lambda n_jobs=1, **o: ContractableBOSS(n_parameter_samples=8, max_ensemble_size=3, min_window=16,
+                                               n_jobs=n_jobs, **o),
+        n_jobs=NJ, n_jobs_quick=((None, 2),), kf_raise=kf_boss_n_jobs_none)
+    add("IndividualTDE(window_size=16, word_length=8)",
+        lambda n_jobs=1, **o: IndividualTDE(window_size=16, word_length=8, n_jobs=n_jobs, **o), n_jobs=NJ,
+        n_jobs_quick=((None, 2),))
+    add("ColumnEnsembleClassifier([IndividualBOSS on column 0, IndividualBOSS on column 1])",
+        lambda random_state=0, **o: ColumnEnsembleClassifier(
+            [("b0", IndividualBOSS(window_size=16, word_length=8, random_state=random_state), [0]),
+             ("b1", IndividualBOSS(window_size=12, word_length=6, random_state=random_state), [1])]), n_cols=2)
+    if thorough:
+        # (~2.5 s per fit)
+        add("MUSE(window_inc=8)", lambda **o: MUSE(window_inc=8, **o), n_cols=2, rstates=(0,), fresh_refs=False,
+            refit=False)
+    return out
+
+
+# ======================================================================================================= entry
+BOUND = (
+    "Small-scope protocol on the real estimators: for each configuration references from fresh equal estimators (one "
+    "call each), then on another equal estimator a call sequence containing every ordered pair of apply-type calls as "
+    "neighbours (+ a seeded random walk; thorough: also every ordered pair on its own fresh fit), bit-exact snapshots "
+    "of all caller objects around every fit and call, pickle round trips (right after fit and after the sequence), "
+    "refit after other data + set_params, n_jobs in {None,1,2,4} under joblib's threading backend, global RNGs "
+    "re-seeded before every fit. Forecasters (series of 9..21 points; RangeIndex from 0/3/5, int64, period, datetime; "
+    "fit / fit+update(update_params False, True); horizons [1,2,3], gapped [2,5], list, all in-sample, [-2,-1,0], "
+    "mixed [-3..2], prediction intervals): NaiveForecaster last/mean/drift x window_length None/4/5 x sp 1/3/4, "
+    "PolynomialTrend, ExponentialSmoothing, Theta, AutoETS (auto on: n_jobs), Ensemble (n_jobs), TransformedTarget "
+    "pipeline (+ transform / inverse_transform), Multiplex, Stacking (n_jobs), the 8 reducers with a stub regressor, "
+    "ForecastingGridSearchCV (n_jobs). Series transformers (Series and 2-column DataFrame, float / int64, 12..20 "
+    "points + 12 later points + an unrelated series; fit, fit_transform, fit+update): HampelFilter windows 3/4/7/10 x "
+    "n_sigma x return_bool on data with spikes / NaN, Imputer all 12 methods (random_state 0/1/7) with NaN inside and "
+    "at both ends, BoxCox, Log, Cosine, Mean, Deseasonalizer sp 3/4/5, ConditionalDeseasonalizer, Detrender "
+    "(polynomial and window forecasters), ACF, PACF, TabularToSeriesAdaptor, OptionalPassthrough. Panel transformers "
+    "(nested DataFrame and 3D numpy, 5..8 cases x 1..2 columns x 13..24 points): PAA, SAX, SFA (8 option sets, "
+    "n_jobs 1/2/4), DWT, HOG1D, TSInterpolator, MatrixProfile, Padding, Truncation, PCA, Tabularizer, Interval / "
+    "RandomInterval / SlidingWindow segmenters, Slope, DerivativeSlope, PlateauFinder, RandomIntervalFeatureExtractor, "
+    "ShapeletTransform, FittedParamExtractor (n_jobs), ColumnConcatenator, row transformers; random_state 0/1/7 and "
+    "None (purity only). Classifiers (nested and 3D numpy, 8..10 cases x 40 points, noisy test cases): BOSSEnsemble, "
+    "IndividualBOSS, ContractableBOSS, IndividualTDE (all n_jobs), ColumnEnsembleClassifier, MUSE (thorough only). "
+    "quick enumerates a rotating part of these (depends on the seed), thorough all. NOT covered because they do not "
+    "run under the installed sklearn / pandas even with the shim: TimeSeriesForest*, RISE, SupervisedTimeSeriesForest, "
+    "Composable forests, WEASEL, TemporalDictionaryEnsemble, SFA information-gain binning, panel ColumnTransformer / "
+    "FeatureUnion, kNN / distance based, Rocket, soft-dependency estimators (ARIMA, Prophet, TBATS, tsfresh, catch22, "
+    "stumpy), a period index with non-window forecasters, ContractedShapeletTransform (time contract), process based "
+    "joblib backends, random_state=None for methods that draw at call time (Imputer random, BOSS tie breaks)."
+)
+
+GROUPS = (("forecaster", "forecaster_subjects"), ("series", "series_transformer_subjects"),
+          ("panel", "panel_transformer_subjects"), ("classifier", "classifier_subjects"))
+
+
+def _run_all(R, tier, seed, name_filter=None, limit=None):
+    import joblib
+    run = Runner(R, seed)
+    with joblib.parallel_backend("threading"):
+        for _, fn in GROUPS:
+            subs = globals()[fn](tier, seed)
+            if name_filter is not None:
+                subs = [S for S in subs if name_filter(S.name)]
+            if limit is not None:
+                subs = subs[:limit]
+            for S in subs:
+                try:
+                    run.run(S, tier)
+                except Exception as e:        # the protocol itself must not stop the run
+                    R.check(K_RAISE, False, f"{S.name}: protocol stopped by {_err(e)}")
+        if name_filter is None or name_filter("forecaster predict horizon fh refit"):
+            forecaster_protocol_checks(R, tier, seed)
+
+
+def bounded(tier, seed):
+    R = Recorder(BOUND)
+    _run_all(R, "thorough" if tier == "thorough" else "quick", int(seed))
+    return R.result()
+
+
+def replay(rec):
+    """the symbolic models of C12 obligations (purity of a region of code) carry no concrete series: the target / case
+    text selects the estimator families whose real code is run through the protocol; integers of the model, when
+    present, become the random seed"""
+    m = rec.get("model") or {}
+    text = " ".join(str(rec.get(k, "")) for k in ("target", "case", "obligation")).lower()
+    seed = abs(mint(m, "seed", mint(m, "random_state", 0))) % 1000
+    families = {
+        "hampel": ("outlier", "hampel"), "imputer": ("impute",), "boxcox": ("boxcox", "box_cox", "logtransformer"),
+        "detrender": ("detrend",), "deseasonalizer": ("deseason",),
+        "naiveforecaster": ("_sktime", "naive", "window", "_update_y_x", "in_sample", "in-sample"),
+        "forecaster": ("_meta", "ensemble", "forecast", "predict"),
+        "boss": ("boss", "n_jobs", "dictionary"), "sfa": ("sfa",),
+        "segmenter": ("segment", "interval"), "pickle": ("pickle",),
+    }
+    wanted = [fam for fam, keys in families.items() if any(k in text for k in keys)]
+    R = Recorder("replay")
+    if wanted and wanted != ["pickle"]:
+        def flt(name):
+            low = name.lower()
+            return any(w in low for w in wanted if w != "pickle")
+        _run_all(R, "quick", seed, name_filter=flt, limit=12)
+    else:
+        def flt(name):
+            low = name.lower()
+            return any(w in low for w in ("hampel", "imputer({'method': 'random'", "naiveforecaster({'strategy': 'mean'",
+                                          "bossensemble(max", "deseasonalizer(sp=4", "sfa("))
+        _run_all(R, "quick", seed, name_filter=flt, limit=6)
+    return {"reproduced": bool(R.failures), "detail": R.failures[:3],
+            "input": {"families": wanted or "representative subset", "seed": seed, "cases": R.cases}}
